@@ -527,3 +527,27 @@ reg(P("C03", "format", "c03",
       assumptions=_FMT_ASSUME + ["the grammar is the published Hprose serialization grammar as transcribed in HproseFormat.tla"],
       sig_fn=_fmt_sig, mutate=_fmt_mutate_c03, design_ref="DESIGN.md §6 C03",
       technique="TLC runs the HproseFormat recogniser (Parse) and the WireMatch contract on the token stream of every real encoder output"))
+
+
+def _fmt_mutate_c02(rec):
+    if rec.get("ev") == "one" and rec.get("toks"):
+        for t in rec["toks"]:
+            if t.get("t") == "ref":
+                t["n"] = t["n"] + 1
+                return rec
+    return None
+
+
+reg(P("C02", "format", "c02",
+      mc={"quick": [("FormatSelf", "FormatSelf.cfg", 600)], "thorough": [("FormatSelf", "FormatSelf.cfg", 1500)]},
+      traces=[("", "FormatTraceC02", "FormatTraceC02.cfg")],
+      level="model_checking",
+      rule="cases = every rooted graph with up to N nodes and E edges (N=E=3 quick, 4 thorough) over a recursive struct with "
+           "a pointer field, a slice of pointers, a map of pointers and an interface field (trees, DAGs, self-loops, "
+           "longer cycles, cycles through slices and maps; a slice or map may hold a node twice), into typed and "
+           "interface{} destinations; every sequence of up to 2 (thorough 3) referable items of 16 kinds followed by "
+           "repeats of the first and the last; non-trivial = a graph with sharing or a cycle, or any prefix case",
+      assumptions=_FMT_ASSUME + ["'written once' is judged for objects reached through Go pointers; a map or slice value "
+                                 "stored twice and a complex number written as a list may be written again"],
+      sig_fn=_fmt_sig, mutate=_fmt_mutate_c02, design_ref="DESIGN.md §6 C02",
+      technique="TLC parses the real reference-mode streams (reference and class tables) and decides WireMatch / SameValue coinductively on the value graphs"))
